@@ -281,7 +281,7 @@ def check_producers(ctx, rep, loops, only_owner=None, minus_for=None, rule="R-WA
         def label(fi, what):
             # constructs are named by owner class and operation, not by the (private, renameable) function
             if minus_for is not None:
-                return "%s: %s is followed by %s.set()" % (li.owner.name, what, li.event_field)
+                return "%s: %s is followed by set() of the worker's event" % (li.owner.name, _role_name(ctx, li, what))
             return "%s: %s is followed by %s.set()" % (fi.qualname, what, li.event_field)
         for key, (fi, e, p) in sorted(good.items()):
             if key in unbalanced:
@@ -300,6 +300,20 @@ def check_producers(ctx, rep, loops, only_owner=None, minus_for=None, rule="R-WA
                    "%s changes state the %s waits for, but no %s.set() follows on path [%s]" % (key[1], li.target.qualname, li.event_field, q.path_sig(p)[:100]), where_of(e.fn, e.node), trace_of(p))
         if minus_for is None:
             rep.ob(rule, "%s: has producers" % li.target.qualname, nfound > 0, "no enabling mutation of the scanned state found (analysis anchor)", where_of(li.target))
+
+
+def _role_name(ctx, li, what):
+    """'_to_submit.popleft' -> 'queue(deque).popleft': constructs of recorded findings must not depend on the
+    (private, renameable) field name"""
+    if "." not in what:
+        return what
+    f, op = what.split(".", 1)
+    ts = set()
+    for c in li.owner.mro():
+        if hasattr(c, "key"):
+            ts |= set(ctx.types.field_types.get((c.key, f), ()))
+    kind = sorted(t.split(":")[-1] for t in ts)
+    return "queue(%s).%s" % ("/".join(kind) if kind else "?", op)
 
 
 def second_waiters(ctx, rep, loops, only_owner=None, rule="R-WAKE-2"):
@@ -325,6 +339,6 @@ def second_waiters(ctx, rep, loops, only_owner=None, rule="R-WAKE-2"):
         if fi.key in seen:
             continue
         seen.add(fi.key)
-        rep.ob(rule, "%s: second waiter on %s" % (li.owner.name, li.event_field), False,
+        rep.ob(rule, "%s: second waiter on the worker's event" % li.owner.name, False,
                "%s waits on the auto-reset event owned (waited and cleared) by %s: a wake-up consumed by one waiter is lost for the other" % (fi.qualname, li.target.qualname), where_of(fi, e.node), trace_of(p, e.seq))
     return out
